@@ -111,6 +111,13 @@ func AddHooks(ctx *core.Context, cronner Cronner, state core.State) error {
 
 		// Yikes!  The caller of this hook already has the state lock!
 		fact, err := state.Get(ctx, id)
+		if _, missing := err.(*core.NotFoundError); missing {
+			// Nothing there (any more, if it just expired), so
+			// nothing for us to unschedule.  Not a reason to
+			// stop whoever wants to remove or clear.
+			core.Log(core.DEBUG|CRON, ctx, "remHook", "missing", id)
+			return nil
+		}
 		if err != nil {
 			return err
 		}
